@@ -112,7 +112,7 @@ pub fn property(id: &str) -> Option<PropertyRun> {
         },
         "C15" => PropertyRun {
             id: id.into(),
-            parts: vec![Box::new(Campaign(roundtrip::C15)), Box::new(Campaign(roundtrip::C15Outputs)), Box::new(FuzzPart { target: "roundtrip_fol", runs_thorough: 150_000 })],
+            parts: vec![Box::new(Campaign(roundtrip::C15)), Box::new(Campaign(roundtrip::C15Outputs)), Box::new(Campaign(roundtrip::C15TheoryOutputs)), Box::new(FuzzPart { target: "roundtrip_fol", runs_thorough: 150_000 })],
             assumptions: vec!["input text comes from the checker's own printer; trees outside the image of the parser are never required to round-trip".into()],
         },
         "C18" => PropertyRun {
